@@ -65,6 +65,7 @@ class World:
         self.truth = {}  # type: Dict[str, Any]
         self.log = []  # type: List[str]
         self.boolish = False
+        self.break_on_fault = False
         w = self
 
         class Rec(RecRepr):
@@ -161,6 +162,9 @@ class World:
             self.k = -1
             exc = KIND_CLS[self.kind]()
             self.injected = exc
+            if name == "body" and self.break_on_fault:
+                # the body updated the object first and fails afterwards: the invariant does not hold any more
+                self.truth["inv0"] = False
             raise exc
 
 
@@ -224,7 +228,7 @@ def _run_async(ctx: contextvars.Context, w: World, arg: Any, susp_k: int, how: i
 
 
 def run_fault(shape: str, mode: str, k: int, kind: int, boolish: bool, nfault: int, susp_k: int, how: int,
-              t_pre0: bool, t_pre1: bool, t_post0: bool, t_inv0: bool) -> Tuple[bool, bool]:
+              t_pre0: bool, t_pre1: bool, t_post0: bool, t_inv0: bool, brk: bool = False) -> Tuple[bool, bool]:
     k, kind, nfault, susp_k, how = conc(k, 0, 12), conc(kind, 0, 4), conc(nfault, 1, 2), conc(susp_k, -1, 8), conc(how, 0, 2)
     if kind == 4 and _is_async(shape):
         kind = 0  # a StopIteration cannot leave a coroutine (PEP 479 turns it into RuntimeError)
@@ -236,6 +240,8 @@ def run_fault(shape: str, mode: str, k: int, kind: int, boolish: bool, nfault: i
             _CACHE[(shape, mode)] = w
     w.boolish = boolish
     w.kind = kind
+    # (methods only) a fault raised by the body leaves the object violating its invariant
+    w.break_on_fault = True if brk else False
     ok = True
     ctx = contextvars.Context()
     helper = None  # type: Any
@@ -320,7 +326,7 @@ def run_fault(shape: str, mode: str, k: int, kind: int, boolish: bool, nfault: i
     return ok, fired
 
 
-ALL = ["k", "kind", "boolish", "nfault", "susp_k", "how", "t_pre0", "t_pre1", "t_post0", "t_inv0"]
+ALL = ["k", "kind", "boolish", "nfault", "susp_k", "how", "t_pre0", "t_pre1", "t_post0", "t_inv0", "brk"]
 
 
 def harnesses(tier: str) -> List[H]:
@@ -331,13 +337,14 @@ def harnesses(tier: str) -> List[H]:
             if tier == "quick" and shape == "method" and mode in ("class", "default_reprlib"):
                 continue
             params = [I("k", 0, 10 if shape == "func" else 7), I("kind", 0, 4), B("boolish")]
-            defaults = {"susp_k": -1, "how": 0, "nfault": 1, "t_pre1": True, "t_inv0": True, "t_pre0": True, "t_post0": True}
+            defaults = {"susp_k": -1, "how": 0, "nfault": 1, "t_pre1": True, "t_inv0": True, "t_pre0": True, "t_post0": True,
+                        "brk": False}
             if tier == "thorough":
                 params += [I("nfault", 1, 2)]
             if shape == "func":
                 params += [B("t_pre0"), B("t_pre1"), B("t_post0")]
             else:
-                params += [B("t_pre0"), B("t_inv0")]
+                params += [B("t_pre0"), B("t_inv0"), B("brk")]
             name = "fault_{}_{}".format(shape, mode)
             out.append(H(name, bind(run_fault, (shape, mode), ALL, defaults, [p.name for p in params]), params,
                          tiers=(tier,), timeout=900 if tier == "quick" else 3600,
@@ -352,18 +359,20 @@ def harnesses(tier: str) -> List[H]:
         for mode in (["factory"] if tier == "quick" else ["factory", "class"]):
             # (a) faults raised by user code inside the coroutine
             params = [I("k", 0, 10 if shape == "afunc" else 7), I("kind", 0, 3), B("boolish")]
-            defaults = {"susp_k": -1, "how": 0, "nfault": 1, "t_pre1": True, "t_inv0": True, "t_pre0": True, "t_post0": True}
+            defaults = {"susp_k": -1, "how": 0, "nfault": 1, "t_pre1": True, "t_inv0": True, "t_pre0": True, "t_post0": True,
+                        "brk": False}
             if shape == "afunc":
                 params += [B("t_pre0"), B("t_pre1"), B("t_post0")]
             else:
-                params += [B("t_pre0"), B("t_inv0")]
+                params += [B("t_pre0"), B("t_inv0"), B("brk")]
             out.append(H("fault_{}_{}_user".format(shape, mode),
                          bind(run_fault, (shape, mode), ALL, defaults, [p.name for p in params]), params, tiers=(tier,),
                          timeout=900 if tier == "quick" else 3600,
                          family="async {}: fault raised by user code at the k-th transition".format(shape), family_size=88))
             # (b) cancellation / exception thrown in / close() at the k-th suspension point
             params = [I("susp_k", 0, 7 if shape == "afunc" else 3), I("how", 0, 2), I("kind", 0, 3)]
-            defaults = {"k": -1 + 0, "boolish": False, "nfault": 1, "t_pre1": True, "t_inv0": True, "t_pre0": True, "t_post0": True}
+            defaults = {"k": -1 + 0, "boolish": False, "nfault": 1, "t_pre1": True, "t_inv0": True, "t_pre0": True, "t_post0": True,
+                        "brk": False}
             defaults["k"] = 12  # never fires from user code
             if shape == "afunc":
                 params += [B("t_pre0"), B("t_pre1"), B("t_post0")]
